@@ -107,3 +107,22 @@ Example C12_crash_redelivers_unsaved_only :
   let s := run fixed [0] h_crash init in
   map (fun d => (d_pos d, d_sv d)) (dels s) = [(2, 1); (2, 1); (1, 0)] /\ get_saved s 0 = 2.
 Proof. exact crash_redelivers_unsaved_only. Qed.
+
+(* ---- link to C10: the abstract store of the model above is what the bundled stores implement ---- *)
+From Coq Require Import NArith ZArith.
+From Ebu Require Store.StoreModel Store.StoreProofs Store.ResubLink.
+
+(* memory store: streaming from the offset of the k-th event (k = 0: OffsetOldest) yields exactly the events after
+   position k, in order - the `skipn from (indexed log)` of sub in ResubModel.v *)
+Theorem C12_memory_store_streams_the_suffix : forall s k,
+  StoreProofs.mem_wf s -> (StoreModel.m_next s < StoreProofs.W)%N -> k <= length (StoreModel.m_events s) ->
+  StoreModel.mem_stream s (StoreProofs.mem_off k) = skipn k (StoreModel.m_events s).
+Proof. exact ResubLink.memory_store_streams_the_suffix. Qed.
+Print Assumptions C12_memory_store_streams_the_suffix.
+
+(* ... and a saved offset is what LoadOffset returns, independently per id *)
+Theorem C12_memory_store_offsets_are_a_map : forall s id id' o,
+  StoreModel.mem_load (StoreModel.mem_save s id o) id = o /\
+  (id <> id' -> StoreModel.mem_load (StoreModel.mem_save s id o) id' = StoreModel.mem_load s id').
+Proof. exact ResubLink.memory_store_offsets_are_a_map. Qed.
+Print Assumptions C12_memory_store_offsets_are_a_map.
